@@ -185,4 +185,122 @@ Proof.
   - destruct HL as (t0 & n0 & m0 & p0 & _ & _ & Em & _ & Esn & _). now rewrite Em, Esn.
 Qed.
 
+(* ------------------------------------------------------------------------------------------------ *)
+(** * Attribute lists seen through [a_value] (what a client can look up)                             *)
+
+Fixpoint a_count (a : attrs) (n : string) : nat :=
+  match a with [] => 0 | (k, _) :: a' => (if String.eqb k n then 1 else 0) + a_count a' n end.
+(* an engine-derived name is tidy in a list: it does not occur, or occurs once with a non-null value *)
+Definition tidy (a : attrs) (n : string) : Prop := a_count a n = 0 \/ (a_count a n = 1 /\ a_value a n <> ANull).
+
+Lemma count0_value : forall a n, a_count a n = 0 -> a_value a n = ANull.
+Proof.
+  induction a as [|[k v] a IH]; intros n H; simpl in *; [reflexivity|].
+  destruct (String.eqb k n); [discriminate|]. now apply IH.
+Qed.
+
+Lemma value_replace : forall a n v k,
+  a_value (a_replace a n v) k = if String.eqb k n then (if Nat.eqb (a_count a n) 0 then ANull else v) else a_value a k.
+Proof.
+  induction a as [|[k0 v0] a IH]; intros n v k; simpl.
+  - now destruct (String.eqb k n).
+  - destruct (String.eqb k0 n) eqn:E0; simpl.
+    + apply String.eqb_eq in E0; subst k0. rewrite (String.eqb_sym n k).
+      destruct (String.eqb k n) eqn:E; [reflexivity|]. rewrite IH, E. reflexivity.
+    + destruct (String.eqb k0 k) eqn:E1.
+      * apply String.eqb_eq in E1; subst k0. now rewrite E0.
+      * rewrite IH. reflexivity.
+Qed.
+
+Lemma count_replace : forall a n v k, a_count (a_replace a n v) k = a_count a k.
+Proof.
+  induction a as [|[k0 v0] a IH]; intros n v k; simpl; [reflexivity|].
+  destruct (String.eqb k0 n); simpl; now rewrite IH.
+Qed.
+
+Lemma value_add : forall a n v k,
+  a_value (a_add a n v) k = if Nat.eqb (a_count a k) 0 then (if String.eqb n k then v else ANull) else a_value a k.
+Proof.
+  unfold a_add. induction a as [|[k0 v0] a IH]; intros n v k; simpl; [reflexivity|].
+  destruct (String.eqb k0 k) eqn:E; simpl; [reflexivity|]. apply IH.
+Qed.
+
+Lemma count_add : forall a n v k, a_count (a_add a n v) k = a_count a k + (if String.eqb n k then 1 else 0).
+Proof.
+  unfold a_add. induction a as [|[k0 v0] a IH]; intros n v k; simpl; [lia|]. rewrite IH. lia.
+Qed.
+
+(* the effect of one update on what can be looked up *)
+Definition upd (a a' : attrs) (n : string) (v : aval) : Prop :=
+  (forall k, a_value a' k = if String.eqb k n then v else a_value a k)
+  /\ (forall k, a_count a' k = if String.eqb k n then (if is_null v then 0 else 1) else a_count a k).
+
+Lemma ca_replace_upd : forall a n v, tidy a n -> is_null v = false -> upd a (ca_replace a n v) n v.
+Proof.
+  intros a n v Ht Hv. unfold ca_replace, a_has.
+  destruct Ht as [H0|[H1 Hnn]].
+  - rewrite (count0_value a n H0). simpl. split; intro k.
+    + rewrite value_add. destruct (String.eqb k n) eqn:E.
+      * apply String.eqb_eq in E; subst. now rewrite H0, String.eqb_refl.
+      * rewrite (String.eqb_sym n k), E. destruct (Nat.eqb (a_count a k) 0) eqn:C; [|reflexivity].
+        apply Nat.eqb_eq in C. now rewrite (count0_value a k C).
+    + rewrite count_add, Hv. rewrite (String.eqb_sym n k). destruct (String.eqb k n) eqn:E; [|lia].
+      apply String.eqb_eq in E; subst. lia.
+  - destruct (a_value a n) eqn:Ev; try congruence; simpl; (split; intro k;
+      [ rewrite value_replace, H1; reflexivity
+      | rewrite count_replace, Hv; destruct (String.eqb k n) eqn:E; [apply String.eqb_eq in E; subst; exact H1|reflexivity] ]).
+Qed.
+
+Lemma remove_last_count : forall a n r, remove_last a n = Some r -> a_count a n >= 1.
+Proof.
+  induction a as [|[k1 v1] a IHa]; intros n r E; simpl in *; [discriminate|].
+  destruct (remove_last a n) eqn:E2; [specialize (IHa _ _ E2); destruct (String.eqb k1 n); lia|].
+  destruct (String.eqb k1 n); [lia|discriminate].
+Qed.
+
+Lemma remove_last_facts : forall a n r, remove_last a n = Some r ->
+  (forall k, a_count r k = a_count a k - (if String.eqb n k then 1 else 0))
+  /\ (forall k, String.eqb n k = false -> a_value r k = a_value a k).
+Proof.
+  induction a as [|[k0 v0] a IH]; intros n r H; simpl in H; [discriminate|].
+  destruct (remove_last a n) as [r0|] eqn:E.
+  - inversion H; subst. destruct (IH n r0 E) as [C Vv]. split; intros k.
+    + simpl. rewrite C. destruct (String.eqb n k) eqn:E1; [|lia].
+      apply String.eqb_eq in E1; subst k. pose proof (remove_last_count a n r0 E). lia.
+    + intro Hk. simpl. destruct (String.eqb k0 k); [reflexivity|]. now apply Vv.
+  - destruct (String.eqb k0 n) eqn:E0; [|discriminate]. inversion H; subst. apply String.eqb_eq in E0; subst k0.
+    split; intros k.
+    + simpl. destruct (String.eqb n k); lia.
+    + intro Hk. simpl. now rewrite Hk.
+Qed.
+
+Lemma ca_remove_upd : forall a n r, tidy a n -> ca_remove a n = Ok r -> upd a r n ANull.
+Proof.
+  intros a n r Ht H. unfold ca_remove, a_has in H.
+  destruct Ht as [H0|[H1 Hnn]].
+  - rewrite (count0_value a n H0) in H. simpl in H. inversion H; subst. split; intro k; simpl.
+    + destruct (String.eqb k n) eqn:E; [|reflexivity]. apply String.eqb_eq in E; subst. now apply count0_value.
+    + destruct (String.eqb k n) eqn:E; [|reflexivity]. apply String.eqb_eq in E; subst. exact H0.
+  - destruct (a_value a n) eqn:Ev; try congruence; simpl in H; unfold a_remove in H;
+      destruct (remove_last a n) as [r0|] eqn:E; try discriminate; inversion H; subst;
+      destruct (remove_last_facts a n r E) as [C Vv]; (split; intro k; simpl;
+      [ destruct (String.eqb k n) eqn:E1;
+        [ apply String.eqb_eq in E1; subst; apply count0_value; rewrite C, String.eqb_refl; lia
+        | apply Vv; now rewrite String.eqb_sym ]
+      | rewrite C, (String.eqb_sym n k); destruct (String.eqb k n) eqn:E1; [apply String.eqb_eq in E1; subst; lia|lia] ]).
+Qed.
+
+Lemma upd_tidy_other : forall a a' n v k, upd a a' n v -> tidy a k -> tidy a' k.
+Proof.
+  intros a a' n v k [Hv Hc] Ht. unfold tidy in *. rewrite Hc, Hv.
+  destruct (String.eqb k n) eqn:E; [|exact Ht].
+  destruct v; simpl; auto; right; split; auto; discriminate.
+Qed.
+
+Lemma upd_tidy_self : forall a a' n v, upd a a' n v -> tidy a' n.
+Proof.
+  intros a a' n v [Hv Hc]. unfold tidy. rewrite Hc, Hv, String.eqb_refl.
+  destruct v; simpl; auto; right; split; auto; discriminate.
+Qed.
+
 End C14.
